@@ -8,7 +8,7 @@ package router
 
 //@ func cacheKey(q *dnsmsg.Question, mark string) (b pool.Buffer)
 //@   props C07
-//@   requires q != nil && len(q.Name) <= 254
+//@   requires q != nil
 //@   modifies nothing
 //@   ensures [C07:len] len(b) == len(q.Name) + 4 + len(mark) && fresh(b)
 //@   ensures [C07:name] bytesEq(b, 0, q.Name, 0, len(q.Name))
@@ -143,10 +143,31 @@ package router
 //@   requires c != nil && q != nil && rc != nil
 //@   modifies rc.Response.IpMark
 //@   ensures m != nil ==> fresh(m) && wfMsg(m) && noOPT(m.Additionals) && (m.Additionals == nil || fresh(m.Additionals)) && len(m.Questions) <= 65535 && len(m.Answers) <= 65535 && len(m.Authorities) <= 65535 && len(m.Additionals) <= 65535
-//@ func (c *cacheCtl) Store(q *dnsmsg.Question, clientAddr netip.Addr, resp *dnsmsg.Msg)
+//@ func packCacheMsg(m *dnsmsg.Msg) (b pool.Buffer, err error)
 //@   trusted
-//@   requires c != nil && q != nil
 //@   modifies nothing
+//@   ensures err == nil ==> b != nil && fresh(b)
+//@ func (c *cacheCtl) ipMark(addr netip.Addr) (mark string)
+//@   trusted
+//@   modifies nothing
+
+// Lifetime policy (C08): NXDOMAIN min(30s, minTTL) / 30s without records, SERVFAIL min(1s, .) / 1s,
+// NOERROR minTTL / 30s, other rcodes min(5s, .) / 5s; at least 1s, at most the configured maximum.
+//@ spec func sec() int = 1000000000
+//@ spec func lifeBase(rcode dnsmsg.RCode, hasRr bool, minTtl int) int = (rcode == 3 ? (hasRr ? (minTtl < 30*sec() ? minTtl : 30*sec()) : 30*sec())
+//@        : (rcode == 2 ? (hasRr ? (minTtl < sec() ? minTtl : sec()) : sec())
+//@        : (rcode == 0 ? (hasRr ? minTtl : 30*sec())
+//@        : (hasRr ? (minTtl < 5*sec() ? minTtl : 5*sec()) : 5*sec()))))
+//@ spec func lifeOf(rcode dnsmsg.RCode, hasRr bool, minTtl int, maxTtl int) int = ((lifeBase(rcode, hasRr, minTtl) <= 0 ? sec() : lifeBase(rcode, hasRr, minTtl)) > maxTtl ? maxTtl : (lifeBase(rcode, hasRr, minTtl) <= 0 ? sec() : lifeBase(rcode, hasRr, minTtl)))
+
+//@ func (c *cacheCtl) Store(q *dnsmsg.Question, clientAddr netip.Addr, resp *dnsmsg.Msg)
+//@   props C08
+//@   requires c != nil && q != nil && (resp == nil || wfMsg(resp)) && c.logger != nil
+//@   modifies nothing
+//@   callsite Store: [C08:never-truncated] resp != nil && !resp.Truncated
+//@   callsite Store: [C08:negative-flag] arg5 == (resp.RCode != 0)
+//@   callsite Store: [C08:lifetime] tns(arg3) - tns(arg2) == lifeOf(resp.RCode, hasRr, int(u) * sec(), int(c.maximumTtl))
+//@   callsite AsyncStore: [C08:never-truncated-redis] resp != nil && !resp.Truncated && arg5 == (resp.RCode != 0)
 //@ func (r *router) forward(ctx context.Context, upstream *upstreamWrapper, q *dnsmsg.Question, remoteAddr netip.Addr) (resp *dnsmsg.Msg, err error)
 //@   trusted
 //@   requires r != nil && upstream != nil && q != nil
@@ -156,7 +177,7 @@ package router
 
 //@ func (r *router) handleReq(ctx context.Context, q *dnsmsg.Question, rc *RequestContext)
 //@   props C03 C10 C12
-//@   requires r != nil && q != nil && rc != nil && r.cache != nil && forall(k, 0, len(r.rules), r.rules[k] != nil)
+//@   requires r != nil && q != nil && rc != nil && r.cache != nil && r.cache.logger != nil && forall(k, 0, len(r.rules), r.rules[k] != nil)
 //@   requires r.queryCacheHitTotal != nil && r.prefetch != nil && r.prefetch.queue != nil
 //@   modifies rc.Response.Msg, rc.Response.RuleIdx, rc.Response.Cached, rc.Response.IpMark, obj(r.prefetch.queue)
 //@   ensures rc.Response.Msg != nil && fresh(rc.Response.Msg) && wfMsg(rc.Response.Msg)
@@ -181,7 +202,7 @@ package router
 
 //@ func (r *router) handleReqMsg(ctx context.Context, m *dnsmsg.Msg, rc *RequestContext)
 //@   props C03 C10 C12
-//@   requires r != nil && m != nil && rc != nil && wfMsg(m) && r.cache != nil && forall(k, 0, len(r.rules), r.rules[k] != nil)
+//@   requires r != nil && m != nil && rc != nil && wfMsg(m) && r.cache != nil && r.cache.logger != nil && forall(k, 0, len(r.rules), r.rules[k] != nil)
 //@   requires r.queryCacheHitTotal != nil && r.logger != nil && r.prefetch != nil && r.prefetch.queue != nil
 //@   modifies rc.Response.Msg, rc.Response.RuleIdx, rc.Response.Cached, rc.Response.IpMark, obj(r.prefetch.queue)
 //@   ensures rc.Response.Msg != nil && wfMsg(rc.Response.Msg)
@@ -230,7 +251,7 @@ package router
 
 //@ func (r *router) handleServerReq(m *dnsmsg.Msg, rc *RequestContext)
 //@   props C03
-//@   requires r != nil && m != nil && rc != nil && wfMsg(m) && r.cache != nil && forall(k, 0, len(r.rules), r.rules[k] != nil)
+//@   requires r != nil && m != nil && rc != nil && wfMsg(m) && r.cache != nil && r.cache.logger != nil && forall(k, 0, len(r.rules), r.rules[k] != nil)
 //@   requires r.queryCacheHitTotal != nil && r.logger != nil && r.queryTotal != nil && r.prefetch != nil && r.prefetch.queue != nil
 //@   modifies *
 //@   ensures [C03:always-a-response] rc.Response.Msg != nil && wfMsg(rc.Response.Msg)
@@ -239,7 +260,7 @@ package router
 
 // ---- listeners: one response write per handled request ------------------------------------------------
 
-//@ spec func routerReady(r *router) bool = r != nil && r.cache != nil && forall(k, 0, len(r.rules), r.rules[k] != nil) && r.queryCacheHitTotal != nil && r.logger != nil && r.queryTotal != nil && r.prefetch != nil && r.prefetch.queue != nil
+//@ spec func routerReady(r *router) bool = r != nil && r.cache != nil && r.cache.logger != nil && forall(k, 0, len(r.rules), r.rules[k] != nil) && r.queryCacheHitTotal != nil && r.logger != nil && r.queryTotal != nil && r.prefetch != nil && r.prefetch.queue != nil
 // the payload size the client advertised: class of the last OPT record of the query, at least 512
 //@ spec func lastOPTAt(m *dnsmsg.Msg, k int) bool = 0 <= k && k < len(m.Additionals) && isOPT(m.Additionals[k]) && forall(j, k+1, len(m.Additionals), !isOPT(m.Additionals[j]))
 
@@ -274,7 +295,7 @@ package router
 // the refresh goroutine: releases its private question and the reservation exactly once, on every path
 //@ closure router.asyncSingleFlightPrefetch$1
 //@   props C19 C20
-//@   requires r != nil && r.prefetch != nil && r.prefetch.queue != nil && qCopy != nil && len(qCopy.Name) <= 254 && u != nil && r.cache != nil && r.logger != nil && r.prefetchTotal != nil && r.ctx != nil
+//@   requires r != nil && r.prefetch != nil && r.prefetch.queue != nil && qCopy != nil && u != nil && r.cache != nil && r.cache.logger != nil && r.logger != nil && r.prefetchTotal != nil && r.ctx != nil
 //@   ghost nDone int = 0
 //@   ghost nRel int = 0
 //@   oncall done: nDone = nDone + 1
@@ -287,7 +308,7 @@ package router
 
 //@ func (r *router) doPrefetch(q *dnsmsg.Question, remoteAddr netip.Addr, u *upstreamWrapper)
 //@   props C19 C08
-//@   requires r != nil && q != nil && len(q.Name) <= 254 && u != nil && r.cache != nil && r.logger != nil && r.prefetchTotal != nil && r.ctx != nil
+//@   requires r != nil && q != nil && u != nil && r.cache != nil && r.cache.logger != nil && r.logger != nil && r.prefetchTotal != nil && r.ctx != nil
 //@   ghost nStore int = 0
 //@   ghost fwdErr error = nil
 //@   aftercall forward: fwdErr = ret1
